@@ -94,3 +94,24 @@ Example C04_display_examples :
   = [STR "True"; STR "False"; STR "x y"; STR "3"; STR "-7"; STR "2.5"; STR "0.3333333333333333";
      STR "100000000000000000000"].
 Proof. vm_compute. reflexivity. Qed.
+
+(* ---------- display forms of interpolated values ---------- *)
+From Coq Require Import Reals.
+From Flocq Require Import Core BinarySingleNaN.
+From YS Require Import Num.F64 Proofs.DisplayProofs.
+
+(* integral numbers (in the int64 range) are shown as an optional minus sign and decimal digits:
+   no decimal point, no exponent *)
+Theorem C04_integral_numbers_without_decimal_point : forall n : f64,
+  is_finite n = true -> B2R n = IZR (Btrunc n) -> (- two63 <= Btrunc n < two63)%Z ->
+  num_to_string n = z_to_str (Btrunc n) /\
+  exists ds, ds <> [] /\ Forall (fun c => is_digit c = true) ds /\
+             (num_to_string n = ds \/ num_to_string n = 45%N :: ds).
+Proof.
+  intros n F I R. split; [exact (integral_number_displayed_as_integer n F I R)|exact (integral_number_has_no_decimal_point n F I R)].
+Qed.
+Print Assumptions C04_integral_numbers_without_decimal_point.
+
+Theorem C04_booleans_and_strings_display : forall (b : bool) (s : str),
+  to_string (VBool b) = (if b then STR "True" else STR "False") /\ to_string (VStr s) = s.
+Proof. exact booleans_and_strings_display. Qed.
